@@ -123,7 +123,8 @@ struct HbConsRun : NodeEnv {
         add_typed(specs, T_HBCONS, 0x1016, 0, CO_OBJ_D___R_, (uint32_t)nEnt);
         for (int i = 0; i < nEnt; i++) { Ent e; e.node = (uint8_t)plan.c("node" + std::to_string(i), 10 + i); e.time = (uint16_t)plan.c("time" + std::to_string(i), 20); for (auto &x : ent) if (x.node == e.node && x.time > 0 && e.time > 0) e.time = 0; ent.push_back(e); add_typed(specs, T_HBCONS, 0x1016, (uint8_t)(i + 1), CO_OBJ_____RW, e.time, e.node); }
         add_typed(specs, T_HBPROD, 0x1017, 0, CO_OBJ_____RW, 0);
-        NodeCfg cfg; cfg.nodeId = nodeId; cfg.freq = freq; cfg.tmrNum = 16;
+        // 'tight': the timer pool holds exactly one slot per consumer entry - all the monitors can ever need at once (F15: no spare slot)
+        NodeCfg cfg; cfg.nodeId = nodeId; cfg.freq = freq; cfg.tmrNum = plan.c("tight", 0) ? (uint16_t)nEnt : 16; if (plan.c("tight", 0)) cov.hit("F15-timer-pool-without-spare-slot");
         w.build(0, cfg, specs); w.init(0); w.start(0);
         if (CONodeGetErr(N()) != CO_ERR_NONE) fail("setup/node-error", "node reports an error after initialisation");
     }
@@ -191,7 +192,7 @@ struct HbConsRun : NodeEnv {
 };
 
 Plan gen_hbcons(Rng &r, bool thorough) {
-    Plan p; uint32_t f = r.pick<uint32_t>({1000, 1000, 2000, 10000}); p.cfg["freq"] = f; int ne = (int)r.range(1, 4); p.cfg["entries"] = ne;
+    Plan p; uint32_t f = r.pick<uint32_t>({1000, 1000, 2000, 10000}); p.cfg["freq"] = f; int ne = (int)r.range(1, 4); p.cfg["entries"] = ne; p.cfg["tight"] = r.chance(1, 3);
     std::vector<int64_t> nodes = {10, 11, 12, 13, 20};
     for (int i = 0; i < ne; i++) { p.cfg["node" + std::to_string(i)] = nodes[(size_t)i]; p.cfg["time" + std::to_string(i)] = r.chance(1, 3) ? 0 : r.pick<int64_t>({5, 10, 20, 50}); }
     int n = (int)r.range(3, thorough ? 60 : 30);
